@@ -55,6 +55,27 @@ def translate():
     need(not lp.body[0].orelse, "unexpected else on the membership test")
     need(len(lp.orelse) == 1 and ast.unparse(lp.orelse[0]) == "resolved = default_scope(obj, attr, crossref)",
          "default provider fallback changed")
+    # per-reference selection: the key list is rebuilt from this reference's object and attribute inside the loop, `resolved` is
+    # bound only by the three calls above (and the builtins fall-back for an unresolved name), and metamodel.scope_providers is only consulted through the loop variable
+    stores = [ast.unparse(n) for n in ast.walk(loop) if isinstance(n, ast.Assign) and any(ast.unparse(t) == "resolved" for t in n.targets)]
+    need(sorted(stores) == sorted(["resolved = crossref.scope_provider(obj, attr, crossref)", "resolved = metamodel.scope_providers[attr_ref](obj, attr, crossref)",
+                                   "resolved = default_scope(obj, attr, crossref)",
+                                   "resolved = metamodel.builtins[crossref.obj_name]"]), "`resolved` is bound elsewhere in the loop: %r" % stores)
+    uses = [n for n in ast.walk(fn) if isinstance(n, ast.Attribute) and n.attr == "scope_providers"]
+    need(len(uses) == 2, "metamodel.scope_providers is consulted %d times (expected: the membership test and the call)" % len(uses))
+    parents = {c: p for p in ast.walk(loop) for c in ast.iter_child_nodes(p)}
+    n, guards = refs[0], []
+    while n is not loop:
+        n = parents[n]
+        if isinstance(n, (ast.If, ast.For, ast.While, ast.Try)) and n is not loop:
+            guards.append(ast.unparse(n.test) if isinstance(n, ast.If) else type(n).__name__)
+    need(guards == ["get_model(obj) == self.model"], "attr_refs is not rebuilt for every reference of this model: guarded by %r" % guards)
+    m, g2 = sel, []
+    while m is not loop:
+        m = parents[m]
+        if isinstance(m, (ast.If, ast.For, ast.While, ast.Try)) and m is not loop:
+            g2.append(ast.unparse(m.test) if isinstance(m, ast.If) else type(m).__name__)
+    need(g2 == ["get_model(obj) == self.model"], "the selection statement is guarded by %r" % g2)
     # default_scope must be a DefaultScopeProvider
     ds = [n for n in ast.walk(fn) if isinstance(n, ast.Assign) and ast.unparse(n.targets[0]) == "default_scope"]
     need(len(ds) == 1 and ast.unparse(ds[0].value) == "DefaultScopeProvider()", "default_scope is not DefaultScopeProvider()")
@@ -87,6 +108,7 @@ def translate():
              "Definition attr_refs : list (list part) :=",
              "  [" + ";\n   ".join("[" + "; ".join(part(p) for p in key) + "]" for key in keys) + "].",
              "Definition grammar_provider_first : bool := true.",
+             "Definition selection_per_reference : bool := true.",
              "Definition string_registration_parsed_by_grammar_ctor : bool := true."]
     emit("SrcScope", "\n".join(lines) + "\n")
     return []
